@@ -185,7 +185,8 @@ def dumpoutline(
                 dest = resolve_dest(dest)
                 pageno = pages[dest[0].objid]
             elif a:
-                action = a
+                # the action dictionary may be an indirect object
+                action = resolve1(a)
                 if isinstance(action, dict):
                     subtype = action.get("S")
                     if subtype and repr(subtype) == "/'GoTo'" and action.get("D"):
